@@ -20,12 +20,14 @@ import oal_sexp
 from sexp import Sym, dumps, loads
 
 PROP = 'C04'
-RULE = ('type-directed random OAL programs (quick: <= 25 generated statements, nesting <= 3; thorough: <= 60, nesting <= 5) '
-        'over a fixed 4-class schema (1:1, 1:M, reflexive with phrases, association class) on random initial populations '
-        '(0-5 instances per class, random links) with random keyword arguments; programs on which the reference semantics '
-        'reports an error or runs out of fuel are outside the domain and dropped (counted in the distribution); a case is '
-        'non-trivial when the program executed a loop body or a where clause and changed the population or returned a '
-        'value; distinct = distinct (program text, population)')
+RULE = ('type-directed random OAL programs (quick: 4000 programs, <= 25 generated statements, nesting <= 3; thorough: 40000, '
+        '<= 60, nesting <= 5) over a fixed 4-class schema (1:1, 1:M, reflexive with phrases, association class) on random '
+        'initial populations (0-6 instances per class, random links, loaded as SQL text) with random keyword arguments; every '
+        '8th program belongs to the arithmetic family (half of its integer literals beyond 2**53, up to 2**70, both signs; '
+        'attribute values and parameters likewise); programs on which the reference semantics reports an error or runs out of '
+        'fuel are outside the domain and dropped (counted in the distribution); a case is non-trivial when the program '
+        'executed a loop body or a where clause with mixed outcomes and changed the population or returned a value; '
+        'distinct = distinct (program text, population)')
 EXHAUSTIVE = {'quick': False, 'thorough': False}
 ASSUMPTIONS = ['programs are type-correct, terminating and error-free under the reference semantics (membership decided by Spec)',
                'reals, events, index access, set operators and referential-attribute access are not generated',
